@@ -85,7 +85,7 @@ func TestTableAtoms(t *testing.T) {
 	g := &GateResult{Bits: 64}
 	tab := &gtable{name: "t", dense: make([]int64, 33)}
 	for _, k := range []int{16, 20, 24, 28, 32} {
-		tab.dense[k] = int64(k/4*3)
+		tab.dense[k] = int64(k / 4 * 3)
 	}
 	e := (&gexpr{}).withTable(tab)
 	a := &atom{e: e, op: token.EQL, c: 0}
